@@ -160,6 +160,74 @@ class Session:
         inst.ok = ok
         return inst
 
+    def prove_using(self, name, goal, hyps, opaque=(), timeout_ms=None):
+        """modular lemma application: prove `goal` from the listed hypotheses ONLY (each must be an established fact:
+        a proved obligation, an assumed contract clause or a precondition), after replacing the listed values by
+        fresh variables (generalisation: validity of the abstracted implication implies the instance)."""
+        c = ctx()
+        pairs = []
+        for k, xv in enumerate(opaque):
+            if isinstance(xv, XR):
+                comps = [("v", xv.v), ("nan", xv.nan), ("pinf", xv.pinf), ("ninf", xv.ninf)]
+            else:
+                comps = [("t", iterm(bterm(xv)) if not isinstance(xv, z3.ExprRef) else xv)]
+            for cn, t in comps:
+                if isinstance(t, z3.ExprRef) and not (z3.is_const(t) and t.decl().kind() == z3.Z3_OP_UNINTERPRETED) \
+                        and not z3.is_rational_value(t) and not z3.is_int_value(t) and not z3.is_true(t) and not z3.is_false(t):
+                    fv = z3.Const(c.fresh(f"opq{k}.{cn}"), t.sort())
+                    pairs.append((t, fv))
+        # substitute larger terms first so that components nested in other components are handled consistently
+        pairs.sort(key=lambda p: -len(p[0].sexpr()))
+        def sub(f):
+            f = zb(bterm(f) if isinstance(f, SBool) else f)
+            for t, fv in pairs:
+                f = z3.substitute(f, (t, fv))
+            return f
+        g = sub(goal)
+        hs = [sub(h) for h in hyps]
+        full = f"{self.label}/{name}/path{self.paths}"
+        t0 = time.time()
+        s = z3.Solver()
+        s.set("timeout", timeout_ms or Z3_TIMEOUT_MS)
+        for h in hs:
+            s.add(h)
+        s.add(z3.Not(g))
+        r = s.check()
+        secs = time.time() - t0
+        if r == z3.unsat:
+            res = Result(full, "proved", "z3(modular)", secs)
+            self.results.append(res)
+            return res
+        if r == z3.sat and os.environ.get("PYVC_DEBUG"):
+            m = s.model()
+            print("DEBUG modular failure", full)
+            if z3.is_and(g):
+                for cj in g.children():
+                    print("   conjunct", str(z3.simplify(m.eval(cj, model_completion=True))), "::", str(cj)[:300])
+        # the modular context drops hypotheses, so a counter-model here may be spurious: decide in the full context
+        res = self.prove(name, goal)
+        if res.status != "proved":
+            res.detail = (res.detail + " (modular attempt: %s)" % r).strip()
+        return res
+
+    def forall_lemma(self, name, n, P, c=None):
+        """prove P(i) at a fresh Skolem index 0 <= i < n; returns inst(i) assuming P(i) (guarded by the range)"""
+        c = c or ctx()
+        if isinstance(n, int):
+            oks = [self.prove(f"{name}@{k}", P(k), c=c).status == "proved" for k in range(n)]
+            return lambda i: all(oks)
+        i0 = z3.Int(c.fresh("lem_i"))
+        c.index_terms_add(i0)
+        r = self.prove(name, P(i0), extra=[i0 >= 0, i0 < zi(n)], c=c)
+        ok = r.status == "proved"
+
+        def inst(i):
+            if ok:
+                c.assume(bimp(band(icmp(">=", i, 0), icmp("<", i, n)), P(zi(i))))
+            return ok
+
+        return inst
+
     # -- summaries --------------------------------------------------------
     def summary(self):
         st = {}
